@@ -215,6 +215,16 @@ func (d *Data) RenumberLabels(v dvid.VersionID, origLabel, newLabel uint64, info
 		err = fmt.Errorf("target label for renumber (%d) already exists in mapping", newLabel)
 		return
 	}
+	// The new label gets mapped to 0 below, which is only sound if it is not the id of a
+	// supervoxel that some body (possibly origLabel itself) still holds.
+	var svmap *VCache
+	if svmap, err = getMapping(d, v); err != nil {
+		return
+	}
+	if mapped, found := svmap.MappedLabel(v, newLabel); found && mapped != 0 {
+		err = fmt.Errorf("target label for renumber (%d) is a supervoxel id mapped to label %d", newLabel, mapped)
+		return
+	}
 
 	d.StartUpdate()
 	defer d.StopUpdate()
